@@ -35,4 +35,31 @@ PROPS = {
         "assumptions": COMMON_ASSUME + ["linearizability search capped at 40 calls per word and 4e5 nodes (beyond: inconclusive, counted, never a violation)",
                                         "store-buffer model covers explicit atomic stores of the c11 build only; fence removal in the sync model is invisible on x86"],
     },
+    "C02": {
+        "harness": "rwlock",
+        "variants": ["T.c11.general", "T.c11.posix"],
+        "quick_s": 10, "thorough_s": 300,
+        "level": "exploration",
+        "rule": ("one evaluation = one simulated run of generated reader/writer lock, trylock and unlock scripts (2-6 tasks, one PRWLock) or of the readers-only "
+                 "barrier scenario, under one seeded schedule with spurious condition-variable wake-ups and reader/writer preference of the native lock as faults; "
+                 "distinct = distinct hash of (grant order, event log); non-trivial = more than one context switch or one fired fault"),
+        "probes": ["rw.two_readers_inside", "rw.all_readers_inside", "rw.tryread_joined_readers", "rw.trywrite_ok", "rw.trywrite_busy", "rw.tryread_busy",
+                   "rw.writer_arrives_with_2_readers", "cond.spurious_wakeup", "cond.broadcast_woke_many"],
+        "components": {"real": ["prwlock-general.c over pmutex-posix.c + pcondvariable-posix.c (T.c11.general)", "prwlock-posix.c (T.c11.posix)", "pmem.c", "pmain.c"],
+                       "stub": STUB_PTHREAD},
+        "assumptions": COMMON_ASSUME + ["simulated pthread mutex / condition variable / rwlock state POSIX semantics (spurious wake-ups and either reader/writer preference are legal)"],
+    },
+    "C03": {
+        "harness": "condvar",
+        "variants": ["T.c11.posix"],
+        "quick_s": 8, "thorough_s": 240,
+        "level": "exploration",
+        "rule": ("one evaluation = one simulated run of a bounded buffer (1-4 producers, 1-4 consumers, capacity 1-3; signal per event on two condition variables or "
+                 "broadcast on one), a gate (1-5 waiters, one broadcast) or a single parked waiter signalled once, under one seeded schedule with spurious wake-ups and "
+                 "extra waiters released by signal as faults; distinct = distinct hash of (wake order, event log); non-trivial = more than one context switch or one fired fault"),
+        "probes": ["bb.consumer_waited", "bb.producer_waited", "cond.signal_with_waiter", "cond.broadcast_with_2_waiters", "cond.signal_to_parked_waiter",
+                   "cond.spurious_wakeup", "cond.signal_woke_two"],
+        "components": {"real": ["pcondvariable-posix.c", "pmutex-posix.c", "pmem.c", "pmain.c"], "stub": STUB_PTHREAD},
+        "assumptions": COMMON_ASSUME + ["simulated pthread_cond_* / pthread_mutex_* state POSIX semantics"],
+    },
 }
